@@ -19,7 +19,11 @@ Inductive case :=
          (routed retained : list bool) (puback suback suback_shared : list N) (undisturbed : bool) (ran : bool)
 (* publishes of one v5 connection (topic number or alias only, alias or 0) under a write ACL that forbids topic 9;
    observed per publish: 10+t routed to topic t | 1 refused, not routed | 2 the connection was closed *)
-| CAlias (ps : list (option N * N)) (obs : list N) (ran : bool).
+| CAlias (ps : list (option N * N)) (obs : list N) (ran : bool)
+(* a client whose user may not write its Will's topic ([forbidden]) - or may - connects and is cut off: the Will is a
+   publish of that user: neither routed nor retained when forbidden (whether the CONNECT is refused or the Will dropped),
+   both when allowed *)
+| CWill (forbidden v5 : bool) (connack : N) (routed retained : bool) (ran : bool).
 
 Definition acode (v : averdict) : N := match v with ARouted t => 10 + t | ADenied => 1 | AProtoErr => 2 end.
 
@@ -56,6 +60,9 @@ Definition case_ok (c : case) : bool :=
       end
   | CAlias ps obs ran =>
       ran && list_eqb N.eqb (map acode (alias_run (fun t => negb (t =? 9)) [] ps)) obs
+  | CWill forbidden v5 connack routed retained ran =>
+      ran && (if forbidden then negb routed && negb retained && ((connack =? 0) || (connack =? (if v5 then 135 else 5)))
+              else (connack =? 0) && routed && retained)
   end.
 
 Fixpoint mismatches_from (i : nat) (cs : list case) : list nat :=
